@@ -139,23 +139,25 @@ Theorem C04_pinned_parked_refuted :
 Proof. exact pinned_parked_refuted. Qed.
 Print Assumptions C04_pinned_parked_refuted.
 
-(* (7) concurrency — handleTunnelOpen is two critical sections (validate + tunnelBridges lookup; later create / attach).
-   For ANY number of concurrent requests (any identities, mappings, secrets, tunnel ids) and ANY schedule of their atomic
-   actions, in the code with fixes/C04-late-bridge-mapping-agreement.diff: a connection wired into a bridge got there through an
+(* (7) concurrency — handleTunnelOpen is two critical sections (validate + tunnelBridges lookup; later create / attach, or attach
+   to the bridge OBJECT that was looked up), and bridges END: the object registered under a client-chosen tunnel id can be removed
+   and ANOTHER mapping's bridge registered under the same id while a request sits between its lookup and its attach.
+   For ANY number of concurrent requests (any identities, mappings, secrets, tunnel ids) and "bridge ends" actions (`starts`:
+   every thread is a request at its lookup or an ending) and ANY schedule of their atomic actions, in the code with fixes/C04-late-bridge-mapping-agreement.diff: a connection wired into a bridge got there through an
    attachment that was entitled to THAT bridge's mapping ... *)
 Theorem C04_all_interleavings_attach_implies_entitled :
   forall (d : db) (ths : list rlocal) (sched : list nat) cr t,
-    Forall (fun lo => l_pc lo = PcLookup) ths ->
+    Forall starts ths ->
     rholds (fst (rrun fixed_variant d (rinit ths) sched)) cr t ->
     In (cr, t, true) (sh_log (fst (rrun fixed_variant d (rinit ths) sched))).
 Proof. exact race_attach_implies_entitled. Qed.
 Print Assumptions C04_all_interleavings_attach_implies_entitled.
 
-(* ... and the mapping of a registered bridge never changes (every variant, every schedule) *)
+(* ... and a bridge OBJECT never changes its mapping (every variant, every schedule, endings and re-registrations included):
+   whatever was established about object g registered under t — "if g is still the registered object, it belongs to m" — stays true *)
 Theorem C04_bridge_mapping_never_changes :
-  forall rv d sched (s : rstate) t m,
-    (exists b, sh_tun (fst s) t = Some b /\ b_mid b = m) ->
-    exists b, sh_tun (fst (rrun rv d s sched)) t = Some b /\ b_mid b = m.
+  forall rv d sched (s : rstate) g t m,
+    fresh_ids (fst s) -> claim g t m (fst s) -> claim g t m (fst (rrun rv d s sched)).
 Proof. exact race_bridge_mapping_stable. Qed.
 Print Assumptions C04_bridge_mapping_never_changes.
 
@@ -164,7 +166,7 @@ Print Assumptions C04_bridge_mapping_never_changes.
 Theorem C04_head_interleaving_refuted :
   (let s := rrun head_variant ex_db2 (rinit [race_A; race_B_target]) race_sched in
    sh_tun (fst s) 9 = Some {| b_mid := 1; b_src := Some 1; b_tgt := Some 2 |} /\ In (2, 9, false) (sh_log (fst s))) /\
-  (let s := rrun {| late_agree := true; source_reattach := true |} ex_db2 (rinit [race_A; race_B_listen]) race_sched in
+  (let s := rrun {| late_agree := true; source_reattach := true; refetch_existing := false |} ex_db2 (rinit [race_A; race_B_listen]) race_sched in
    sh_tun (fst s) 9 = Some {| b_mid := 1; b_src := Some 2; b_tgt := None |} /\ In (2, 9, false) (sh_log (fst s))).
 Proof. exact (conj head_race_refuted source_reattach_refuted). Qed.
 Print Assumptions C04_head_interleaving_refuted.
@@ -210,4 +212,22 @@ Theorem C04_cross_node_witnesses :
    x_tun sh 9 = Some {| b_mid := 1; b_src := Some 1; b_tgt := Some 3 |} /\ x_log sh = [(3, 9, true); (1, 9, true)]).
 Proof. exact head_cross_witness. Qed.
 Print Assumptions C04_cross_node_witnesses.
+
+(* (9) bridge replacement — re-fetching tunnelBridges[T] after the ack write and attaching WITHOUT re-testing is refuted: the owner
+   (mapping 2) has tunnel 9, its target's request passes the agreement test, the bridge ends, mapping 1's listener registers a new
+   bridge under id 9, the attach lands in mapping 1's bridge.  With the attach on the object that was tested (the real code) the
+   new bridge is left alone, and without the ending the request is attached to its own mapping's bridge. *)
+Theorem C04_refetch_existing_refuted :
+  let s := rrun {| late_agree := true; source_reattach := false; refetch_existing := true |} ex_db2 (rinit repl_threads) repl_sched in
+  sh_tun (fst s) 9 = Some {| b_mid := 1; b_src := Some 1; b_tgt := Some 4 |} /\ In (4, 9, false) (sh_log (fst s)).
+Proof. exact refetch_existing_refuted. Qed.
+Print Assumptions C04_refetch_existing_refuted.
+
+Theorem C04_replacement_witness :
+  let s := rrun fixed_variant ex_db2 (rinit repl_threads) repl_sched in
+  sh_tun (fst s) 9 = Some {| b_mid := 1; b_src := Some 1; b_tgt := None |} /\
+  sh_log (fst s) = [(1, 9, true); (2, 9, true)] /\
+  sh_tun (fst (rrun fixed_variant ex_db2 (rinit repl_threads) [0; 0; 1; 1]%nat)) 9 = Some {| b_mid := 2; b_src := Some 2; b_tgt := Some 4 |}.
+Proof. exact replacement_witness. Qed.
+Print Assumptions C04_replacement_witness.
 Close Scope N_scope.
